@@ -49,6 +49,10 @@ def _merge_stats(dst, src):
 def _worker(args):
     spec, prefix, opts, expand_to = args
     try:
+        import faulthandler
+        import signal
+
+        faulthandler.register(signal.SIGUSR1, all_threads=True)  # kill -USR1 <worker> shows where it is
         fn = _load(spec)
         ex = Explorer(solver_timeout_ms=opts.get("solver_timeout_ms", 10000),
                       path_seconds=opts.get("path_seconds", 20),
